@@ -104,3 +104,40 @@ Definition run_dispatch (bits ks : list Z) (flush : Z) : sx :=
   | [] => bad_case
   | _ => enc_outcome (match_step bindings (val_of bits) ks (flush =? 1))
   end.
+
+(* ---------------------------------------------------------------------- *)
+(* The `while True` loop of KeyProcessor._process from the moment one key (or
+   the flush marker) has been taken from the queue until the generator waits
+   for the next one: the first evaluation, then the `retry` evaluations (with
+   flush = False, as the loop resets it).  Handlers run between two
+   evaluations and change the application state, so the valuation of the
+   filter atoms is an input of every evaluation ([vs n] for the n-th one), and
+   so is `get_app().is_done` ([dn n]): a retry on a finished application
+   returns the rest of the buffer to the input queue (fix ff58b7b).
+   Result: the calls made (row index, key sequence) and how the loop stopped. *)
+Inductive lstop :=
+| LEmpty                       (* key buffer empty: waits for the next key *)
+| LWait (buf : list Z)         (* keys stay in the buffer *)
+| LAhead (buf : list Z)        (* application done: keys become type-ahead *)
+| LFuel.
+
+Fixpoint process_loop (fuel : nat) (tbl : list binding) (vs : nat -> Z -> bool) (dn : nat -> bool)
+         (n : nat) (retry : bool) (ks : list Z) (flush : bool) : list (Z * list Z) * lstop :=
+  match fuel with
+  | O => ([], LFuel)
+  | S f =>
+      match ks with
+      | [] => ([], LEmpty)        (* (a retry on a finished application puts nothing back) *)
+      | _ =>
+          if retry && dn n then ([], LAhead ks)
+          else
+            match match_step tbl (vs n) ks flush with
+            | Wait => ([], LWait ks)
+            | Call idx m =>
+                let '(calls, st) :=
+                  process_loop f tbl vs dn (S n) true (skipn (Z.to_nat m) ks) false in
+                ((idx, firstn (Z.to_nat m) ks) :: calls, st)
+            | DropOne => process_loop f tbl vs dn (S n) true (tl ks) false
+            end
+      end
+  end.
